@@ -3,9 +3,9 @@
 # Confirms a seeded change (demo fails with it / passes without, test suite passes) and runs ./check against it.
 P=$1; WT=$2; I=$3; TIER=${4:-quick}; SKIP=$5
 cd $WT && git checkout -q -- odl && 
-/venv/bin/python seed_out/demo_$I.py >/dev/null 2>&1; echo "demo clean exit=$?"
-git apply seed_out/change_$I.diff || { echo "APPLY FAILED"; exit 9; }
-/venv/bin/python seed_out/demo_$I.py >/dev/null 2>&1; echo "demo mutated exit=$?"
+/venv/bin/python ${SEED_DIR:-seed_out}/demo_$I.py >/dev/null 2>&1; echo "demo clean exit=$?"
+git apply ${SEED_DIR:-seed_out}/change_$I.diff || { echo "APPLY FAILED"; exit 9; }
+/venv/bin/python ${SEED_DIR:-seed_out}/demo_$I.py >/dev/null 2>&1; echo "demo mutated exit=$?"
 if [ "$SKIP" != "--skip-tests" ]; then
   /venv/bin/python -m pytest -q -p no:cacheprovider --timeout=900 -W ignore 2>&1 | grep -E "^[0-9]+ passed|failed|error" | tail -2
 fi
